@@ -146,6 +146,15 @@ def events_for(env, rng, thorough):
         ra = P.outcome(lambda: (Scalar(a, 1.0) + Scalar(ObtainQuantity(other), 2.0)).GetValue())
         rb = P.outcome(lambda: (Scalar(b, 1.0) + Scalar(ObtainQuantity(other), 2.0)).GetValue())
         ev.append({"op": "SameReq", "call": name + ": a sum on each", "eq": ra == rb and ra[0] == "ok", "ne": ra != rb, "hash1": 0, "hash2": 0, "desc1": str(ra[1:]), "desc2": str(rb[1:]) if ra == rb else str(ra[1:])})
+    # the category-only request form with a caption: the same resolution as naming the category's default unit with that caption, and a
+    # different one from any other caption / no caption
+    for c_ in ("Unknown", "length", "temperature"):
+        du_ = db.GetDefaultUnit(c_)
+        a = ObtainQuantity(None, c_, "API units")
+        for name, b, same in (("the default unit named", ObtainQuantity(du_, c_, "API units"), True), ("another caption", ObtainQuantity(None, c_, "other units"), False),
+                              ("no caption", ObtainQuantity(None, c_), False), ("the default unit named, no caption", ObtainQuantity(du_, c_), False)):
+            ev.append({"op": "SameReq" if same else "DiffReq", "call": "category only %s with a caption vs %s" % (c_, name), "eq": bool(a == b), "ne": bool(a != b),
+                       "hash1": hash(a), "hash2": hash(b), "desc1": desc(a), "desc2": desc(b)})
     # the copy requests that name a composing map (MakeCopy / CreateCopyInstance): no map is the quantity itself, the empty map is the empty
     # quantity, any other map is the quantity that map resolves to - whatever quantity the request is made on; the source is left as it was
     for sname, src in (("simple m", ObtainQuantity("m", "length")), ("derived m/s", ObtainQuantity(OrderedDict([("length", ["m", 1]), ("time", ["s", -1])]))),
